@@ -212,6 +212,8 @@ fn history(src: &mut Src, st: &mut Stats, _env: &Env) -> CaseResult {
             let plain = [
                 "n", "s", "xs", "o", "z", "`1`", "'lit'", "xs[*]", "objs[*].a", "&n", "&objs[0].a", "xs[0]", "`[1, 2]`", "&@", "`[[1, 2], [\"x\"]]`", "`[[1], [2, 3]]`", "`[[\"x\"], [1]]`",
                 "`[\"a\", [1]]`", "`[[1], \"a\", [\"b\"]]`", "`[[1], [2], [true]]`", "`[1, 2, \"x\"]`", "`[]`", "`[[]]`", "[xs, xs]", "[xs, [s]]",
+                // numbers whose representation matters: whole floats, values beyond 64-bit integers, zeros
+                "`1e19`", "`-1e300`", "`2.0`", "`18446744073709551615`", "`-9223372036854775808`", "`0.5`", "`-0.0`", "`[1e19, 2.0]`",
             ];
             // long array literals, uniform or with one member of another kind near the end
             let long_texts: Vec<String> = {
